@@ -35,7 +35,7 @@ SHARD_SIZE = 8
 
 
 def budget(tier):
-    return 160 if tier == "quick" else 3500
+    return 160 if tier == "quick" else 2400
 
 
 def graph_ids(obj):
